@@ -12,7 +12,7 @@ mkdir -p "$BIN" "$VERIF/evidence" "$VERIF/replays" "$VERIF/work"
 
 build() { # $1 = output, extra flags follow
   local out="$1"; shift
-  (cd "$VERIF/harness" && cp /repo/go.sum ./go.sum.repo 2>/dev/null; go build -tags verif "$@" -o "$out" ./cmd/vcheck) 2>"$VERIF/work/build.$$.log"
+  (cd "$VERIF/harness" && cat /repo/go.sum go.sum.extra 2>/dev/null | sort -u > go.sum; go build -tags verif "$@" -o "$out" ./cmd/vcheck) 2>"$VERIF/work/build.$$.log"
   local rc=$?
   if [ $rc -ne 0 ]; then
     echo "BUILD FAILED (harness or /repo does not compile with -tags verif):" >&2
